@@ -292,6 +292,35 @@ def check_constancy(model, rep):
                        f'{c.name}.arguments returns `{val}`; expected {acc[0]}: an argument the node depends on would not be announced (or a foreign one removed)', statement='arguments-override')
 
 
+def check_bounds_inputs(model, rep):
+    """R06.7: the integer range a node announces (_intbounds_impl) may only be computed from what the node's value is computed from.
+    For a node with its own `evalf` the value is a function of `dependencies`; a range derived from a field that is not among them
+    (`self.na` where the value uses `self.nb`) describes another quantity."""
+    ev = model.module('evaluable')
+    n = 0
+    for c in ev.classes.values():
+        mem = c.members.get('_intbounds_impl')
+        dep = c.members.get('dependencies')
+        if mem is None or mem.func is None or dep is None or dep.func is None or 'evalf' not in c.members:
+            continue
+        rets = [r for r in ast.walk(dep.func.node) if isinstance(r, ast.Return) and r.value is not None]
+        if len(rets) != 1:
+            continue   # conditional dependency tuples: not decided
+        deps = {src(x) for x in ast.walk(rets[0].value) if isinstance(x, ast.Attribute) and isinstance(x.value, ast.Name) and x.value.id == 'self'}
+        if not deps:
+            continue
+        n += 1
+        fields = {st.target.id for st in c.node.body if isinstance(st, ast.AnnAssign) and isinstance(st.target, ast.Name)}
+        read = {src(x) for x in ast.walk(mem.func.node) if isinstance(x, ast.Attribute) and isinstance(x.value, ast.Name) and x.value.id == 'self' and x.attr in fields}
+        extra = sorted(read - deps)
+        ok = not extra
+        rep.ob('R06.7', mem.func.key, mem.func.where(), ok, f'{c.name}: the announced range is computed from the dependencies of the value ({", ".join(sorted(read)) or "none"})' if ok else
+               f'{c.name}._intbounds_impl reads {", ".join(extra)}, which is not among the dependencies ({", ".join(sorted(deps))}) the value is computed from: the announced range describes another quantity, and bounds '
+               'checks or integer rewrites that rely on it are dropped wrongly', statement='bounds-from-dependencies')
+    if n < 8:
+        raise AnalysisError(f'only {n} classes with evalf, dependencies and _intbounds_impl found')
+
+
 def run(model, rep, tier):
     from rules.c02 import check_compiled_subset_dependencies, check_fields_announced
     rep.explanation = (
@@ -305,6 +334,8 @@ def run(model, rep, tier):
     rep.rule('R06.2', 'compiled fields are reachable from the announced dependencies')
     rep.rule('R06.3', 'isconstant/arguments overrides are conservative')
     rep.rule('R06.4', 'elementary transfer functions equal interval arithmetic')
+    rep.rule('R06.6', 'rewrite rules fire on certain, not merely possible, equality of run-time lengths (= R01.7): the simplified expression keeps the announced shape')
+    rep.rule('R06.7', 'announced integer ranges are computed from the dependencies of the value only')
     rep.rule('R06.5', 'function.Array wrappers announce exactly the arguments their lowering depends on (= R13.5)')
     check_consumers(model, rep)
     check_transfer(model, rep)
@@ -312,6 +343,9 @@ def run(model, rep, tier):
     from rules.c13 import check_announced
     from rules.c03 import _Rename
     check_announced(model, _Rename(rep, {'R13.5': 'R06.5'}))   # function.Array metadata: announced argument tables
+    from rules.c01 import check_certain_equality
+    check_certain_equality(model, _Rename(rep, {'R01.7': 'R06.6'}))
+    check_bounds_inputs(model, rep)
     check_compiled_subset_dependencies(model, rep, rule='R06.2')
     check_fields_announced(model, rep, rule='R06.2')
     rep.require('R06.1', 14)
